@@ -259,10 +259,29 @@ func c13Timeout(id string, class int, payloadKind int, seed int64) core.Scenario
 		if class == 0 {
 			timeout = 60 * time.Second
 		}
+		if class == 1 || class == 2 {
+			// also the boundary values: a used-up budget (0, negative) times out at once
+			timeout = []time.Duration{5 * time.Millisecond, 0, -time.Nanosecond, -time.Hour, time.Nanosecond, 300 * time.Microsecond}[int(seed%6+6)%6]
+			rep["timeout"] = timeout.String()
+		}
 		if class == 3 {
 			timeout = time.Duration(200+seed%400) * time.Microsecond
 		}
-		res, err := ask.AskOnceWithTimeout(actor, timeout)
+		var res string
+		var err error
+		returned := make(chan struct{})
+		go func() { defer close(returned); res, err = ask.AskOnceWithTimeout(actor, timeout) }()
+		if v, dump := core.AwaitOrStuck(returned, 2*time.Second, 90*time.Second, func() int64 { return 0 }); v == "stuck" {
+			c.Violationf("timeout:asker-never-returns", map[string]any{"scenario": id, "class": rep["class"], "timeout": timeout.String(), "goroutines": core.RepoGoroutineSummary(dump)},
+				"AskOnceWithTimeout(actor, %v) never returned although no reply is coming (%s); nothing can make progress", timeout, rep["class"])
+			if class == 2 {
+				close(goAhead)
+			}
+			return
+		} else if v != "done" {
+			c.Inconclusive("watchdog in " + id)
+			return
+		}
 		switch class {
 		case 0:
 			if err != nil || res != fmt.Sprintf("re:%v", payload) {
@@ -486,7 +505,7 @@ func init() {
 		Meta: func(c *core.Ctx) core.Meta {
 			return core.Meta{
 				Level:       "exploration",
-				Rule:        "correlation: 1..32 concurrent askers x 1..200 asks through AskOnce / AskOnceWithTimeout(60 s) / AskChannel; the reply is a pure function of the request payload and a per-request nonce, the actor replies inline, from helper goroutines in shuffled order, or in reversed batches, so every asker can verify that it received exactly its own answer; timeouts as logical classes: 'in time' = 60 s timeout + immediate reply (an error is a violation), 'never' = 5 ms timeout and no reply, 'after' = the actor replies only after AskOnceWithTimeout has RETURNED ErrActorAskTimeout (signalled by the harness) under recover with a 10 s blocked-detector, 'queued' = the request waits behind a busy actor (mailbox capacity 0..2) beyond the asker's 3 ms timeout and is answered afterwards, 'racing' = PRNG delays around a 200-600 us timeout and the asker parked at ask.timeout.fired so that the reply lands between the timer and the close; afterwards a fresh ask with a 60 s timeout must be served; the asks of the timeout classes are built by AskNewGenerics, AskNewByOptionsGenerics / NewByOptions with caller supplied unbuffered and 1-buffered reply channels; multi-step histories of 300 (thorough 1500) rounds {ask whose reply lands within +-100 us of its 150-350 us timeout, then an ask with a 60 s timeout answered immediately, which must not time out}; payload kinds int/string/struct/nil; repeated under -race. distinct_nontrivial = distinct scenarios",
+				Rule:        "correlation: 1..32 concurrent askers x 1..200 asks through AskOnce / AskOnceWithTimeout(60 s) / AskChannel; the reply is a pure function of the request payload and a per-request nonce, the actor replies inline, from helper goroutines in shuffled order, or in reversed batches, so every asker can verify that it received exactly its own answer; timeouts as logical classes: 'in time' = 60 s timeout + immediate reply (an error is a violation), 'never' = timeout in {5 ms, 0, -1 ns, -1 h, 1 ns, 300 us} and no reply (the call itself is under the stuck detector), 'after' = the actor replies only after AskOnceWithTimeout has RETURNED ErrActorAskTimeout (signalled by the harness) under recover with a 10 s blocked-detector, 'queued' = the request waits behind a busy actor (mailbox capacity 0..2) beyond the asker's 3 ms timeout and is answered afterwards, 'racing' = PRNG delays around a 200-600 us timeout and the asker parked at ask.timeout.fired so that the reply lands between the timer and the close; afterwards a fresh ask with a 60 s timeout must be served; the asks of the timeout classes are built by AskNewGenerics, AskNewByOptionsGenerics / NewByOptions with caller supplied unbuffered and 1-buffered reply channels; multi-step histories of 300 (thorough 1500) rounds {ask whose reply lands within +-100 us of its 150-350 us timeout, then an ask with a 60 s timeout answered immediately, which must not time out}; payload kinds int/string/struct/nil; repeated under -race. distinct_nontrivial = distinct scenarios",
 				Assumptions: []string{"a 60 s timeout is never hit by an immediately replying actor (safe direction only: a timeout error is a violation, finishing late is not)", "in the racing class either outcome (reply or timeout) is legal"},
 			}
 		},
